@@ -1089,6 +1089,89 @@ def sec_flags(run):
         run.refuted.append("controlled_flag_ok")
 
 
+# ---------------------------------------------------------------- "exactly when": the flag against the operator (test)
+_PAULI_STRINGS = {}
+
+
+def pauli_strings(n):
+    import itertools
+    if n not in _PAULI_STRINGS:
+        P1 = {"I": np.eye(2), "X": np.array([[0, 1], [1, 0]]), "Y": np.array([[0, -1j], [1j, 0]]), "Z": np.array([[1, 0], [0, -1]])}
+        labs = list(itertools.product("IXYZ", repeat=n))
+        mats = []
+        for lab in labs:
+            M = np.array([[1.0 + 0j]])
+            for ch in lab:
+                M = np.kron(M, P1[ch])
+            mats.append(M)
+        _PAULI_STRINGS[n] = (labs, np.array(mats))
+    return _PAULI_STRINGS[n]
+
+
+def is_clifford_matrix(U, n, tol=1e-9):
+    """U P U^dagger is +/- a Pauli string for every generator X_j, Z_j (numerical test)"""
+    labs, S = pauli_strings(n)
+    for k, lab in enumerate(labs):
+        if sum(ch != "I" for ch in lab) != 1 or "Y" in lab:
+            continue
+        V = U @ S[k] @ U.conj().T
+        coef = np.einsum("kij,ij->k", S.conj(), V) / 2 ** n
+        big = np.abs(coef) > tol
+        if big.sum() != 1 or abs(abs(coef[big][0]) - 1) > 1e-6 or abs(coef[big][0].imag) > 1e-6:
+            return False
+    return True
+
+
+def sec_flag_exact(run):
+    """`gate.clifford` exactly when the operator maps Paulis to Paulis, over every class of gates.py with its
+    parameters on the grid {0, pi/2, pi, 3pi/2} (numerical test of the operator)"""
+    import inspect
+    import itertools
+    import sys
+    from qibo.gates.abstract import Gate
+    gg = sys.modules["qibo.gates.gates"]
+    grid = [0.0, np.pi / 2, np.pi, 3 * np.pi / 2]
+    checked = 0
+    for name, cls in vars(gg).items():
+        if not (inspect.isclass(cls) and issubclass(cls, Gate)) or name.startswith("_") or cls.__module__ != gg.__name__:
+            continue
+        if name in ("Unitary", "GeneralizedRBS", "GeneralizedfSim", "Align", "M", "I", "FanOut"):
+            continue
+        ps = [p for p in list(inspect.signature(cls.__init__).parameters.values())[1:] if p.name != "trainable"]
+        if any(p.kind in (p.VAR_POSITIONAL, p.VAR_KEYWORD) for p in ps):
+            continue
+        nq = len([p for p in ps if p.name in ("q", "q0", "q1", "q2")])
+        npar = len(ps) - nq
+        if nq == 0 or nq > 3 or npar > 3:
+            continue
+        false_neg = false_pos = None
+        for vals in itertools.product(range(4), repeat=npar):
+            try:
+                g = cls(*range(nq), *[grid[v] for v in vals])
+                U = np.asarray(g.matrix())
+            except Exception:
+                continue
+            if U.shape != (2 ** nq, 2 ** nq):
+                continue
+            truth = is_clifford_matrix(U, nq)
+            checked += 1
+            run.case(["flag_exact", name, list(vals), bool(g.clifford), truth])
+            if truth and not g.clifford and false_neg is None:
+                false_neg = vals
+            if g.clifford and not truth and false_pos is None:
+                false_pos = vals
+        lab = lambda vals: ",".join(["0", "pi/2", "pi", "3pi/2"][v] for v in vals)
+        if false_neg is not None:
+            run.notes.setdefault("flag_exact_refused", []).append(f"{name}({lab(false_neg)})")
+        if false_pos is not None and name not in ROT2:
+            report(run, f"flag_exact:accepted:{name}", f"{name}({lab(false_pos)}).clifford is True but the operator does not map Paulis to Paulis",
+                   {"kind": "flag_exact", "cls": name, "params": list(false_pos)})
+    run.notes["flag_exact_checked"] = checked
+    if "flag_exact_refused" in run.notes:
+        run.notes["flag_exact_refused_note"] = ("classes that have Clifford instances on the grid but never (or not there) report `.clifford`: "
+                                                "such circuits are refused (allowed by 'or refuses'; the flag is not 'exactly when' for them)")
+
+
 # ---------------------------------------------------------------- rule-level probes (complete local truth tables)
 STATIC_OP = {}
 for _f in RULE1:
@@ -1619,6 +1702,7 @@ def main(run):
     sec_flag_sweep(run)
     sec_flag_witnesses(run)
     sec_flags(run)
+    sec_flag_exact(run)
     sec_probes(run, rng, fnames)
     sec_matrices(run)
     sec_circuits(run, rng)
@@ -1730,6 +1814,8 @@ def replay(run, data):
             run.find(key, what, rp)
     elif kind in ("controlled_flag", "flag_semantics", "flags"):
         sec_flags(run)
+    elif kind == "flag_exact":
+        sec_flag_exact(run)
     elif kind == "collapse":
         sec_collapse(run)
     elif kind in ("stim", "stim_controlled", "stim_idle"):
